@@ -25,6 +25,15 @@ class Ctx(object):
         self.shim = capi.load_shim(os.environ['VF_SHIM'])
         self.lib = capi.Lib(os.environ['VF_LIB'])
         self.L = build.layout()
+        # the interposing shim (shim_t13 builds) forwards to the library's own definitions: tell it where they are
+        # (the library is loaded RTLD_LOCAL by ctypes, so the shim cannot find them with dlsym(RTLD_NEXT))
+        try:
+            import ctypes as _ct
+            self.shim.vf_t13_set_real(_ct.c_void_p(self.lib.addr('tls13_record_encrypt')))
+            self.shim.vf_scheme_set_real(_ct.c_void_p(self.lib.addr('tls13_record_set_handshake_certificate_verify')),
+                                         _ct.c_void_p(self.lib.addr('tls_record_set_handshake_server_key_exchange_ecdhe')))
+        except (AttributeError, OSError):
+            pass
         self.tmp = os.path.join(wd, 'tmp')
         os.makedirs(self.tmp, exist_ok=True)
         self._reset_unit()
